@@ -17,6 +17,7 @@ func checkC05(c *Check) {
 	c.Assumptions = []string{"union index is within range (set only by generated accessors and readers: C43, C02)", "JSONWriteContext.Short is a write-only migration mode (a …Long union is written under its non-Long sibling's type names; readers have no such mode): names emitted under it are outside the round trip"}
 	writers, keysChecked, unions, dictKeys := 0, 0, 0, 0
 	withCorpora(c, true, func(g *genCtx) {
+		natArgAgreement(c, g, "json-nat-arguments-as-in-tl1", "WriteTL1", []string{"ReadJSONGeneral", "WriteJSONOpt"})
 		for _, fam := range g.families() {
 			roles := g.byFam[fam]
 			name := g.co.Spec.Name + ":" + shortFam(fam)
@@ -103,6 +104,7 @@ func checkC05(c *Check) {
 		}
 	})
 	c.Set("json_writers", writers)
+	c.Floor("json-nat-arguments-as-in-tl1", 50)
 	c.Set("json_dict_key_writers", dictKeys)
 	c.Set("json_union_variants", unions)
 	c.Floor("json-union-type-names", 20)
